@@ -21,6 +21,7 @@ type bulkIn struct {
 	maxBytes int    // LoadRange answers above maxBytes are refused (0: none)
 	once     bool   // LoadRegionsOnce instead of LoadRegions
 	failAt   int    // the failAt-th LoadRange of the load fails once
+	damage   int    // region storage + LoadRegionsOnce: the damage-th record (1-based, id order) is unreadable at the first load and repaired before the second
 }
 
 func (in bulkIn) String() string {
@@ -40,6 +41,9 @@ func (in bulkIn) String() string {
 	}
 	if in.failAt > 0 {
 		s += fmt.Sprintf(" LoadRange#%d-fails", in.failAt)
+	}
+	if in.damage > 0 {
+		s += fmt.Sprintf(" record#%d-unreadable-then-repaired", in.damage)
 	}
 	return s
 }
@@ -289,6 +293,27 @@ func runRegions(w *world, in bulkIn) *hist.Violation {
 		// the region storage is not behind the seam: nothing to refuse there
 		w.seam.maxLimit, w.seam.maxBytes = 0, 0
 	}
+	if in.damage > 0 && in.backend == "rs" && in.once {
+		// one record cannot be decoded: the load must fail; after the record has been
+		// repaired a load that reports success must deliver every region
+		ks, vs, rerr := w.raw.LoadRange("raft/r/", "raft/r0", 0)
+		if rerr != nil || len(ks) < in.damage {
+			return infra(ctx, fmt.Errorf("cannot read the region records: %v (%d records)", rerr, len(ks)))
+		}
+		k, v := ks[in.damage-1], vs[in.damage-1]
+		if err := w.rs.Save(k, "\xff\xfe not a region"); err != nil {
+			return infra(ctx, err)
+		}
+		n1 := 0
+		err1, _ := w.loadRegions(true, 3*in.n+100, func(r *core.RegionInfo) []*core.RegionInfo { n1++; return nil })
+		if err := w.rs.Save(k, v); err != nil {
+			return infra(ctx, err)
+		}
+		if err1 == nil {
+			// the loader chose to skip the record and call that a success: nothing more can be asked of a retry
+			return nil
+		}
+	}
 	var items []got
 	err, aborted := w.loadRegions(in.once, 3*in.n+100, func(r *core.RegionInfo) []*core.RegionInfo {
 		items = append(items, got{id: r.GetID(), ver: int(r.GetRegionEpoch().GetVersion()), enc: encRegion(r.GetMeta())})
@@ -464,6 +489,14 @@ func regionInputs(tier string) []bulkIn {
 		for k := 1; k <= calls; k++ {
 			for _, ids := range []string{"dense1", "top"} {
 				l = append(l, bulkIn{kind: "region", backend: "mem", n: c.n, ids: ids, variant: "plain", L: c.L, failAt: k})
+			}
+		}
+	}
+	// region storage: an unreadable record at the first LoadRegionsOnce, repaired before the retry
+	for _, n := range []int{1, 2, 100, 101, 250} {
+		for _, d := range uniqSorted([]int{1, n/2 + 1, n}) {
+			if d >= 1 && d <= n {
+				l = append(l, bulkIn{kind: "region", backend: "rs", n: n, ids: "dense1", variant: "plain", once: true, damage: d})
 			}
 		}
 	}
